@@ -7,7 +7,7 @@ import ast
 
 from ..alg import Poly, Q, MQ, Rat, is_zero
 from ..repo import AnalysisError, dotted, norm_text, FuncInfo, walk_no_nested
-from ..xeval import Interp, XObj, Opaque, _NpAttr, _Bound, Uninterpretable
+from ..xeval import Interp, XObj, Opaque, _NpAttr, _Bound, Uninterpretable, XRaise
 from ..xarray import XArray
 
 LAWS = "EasyFEA.Models.Elastic._laws"
@@ -343,21 +343,6 @@ def lazy_rule(ctx):
             r.ok(f"{ci.name}._Update assigns both C and S")
         else:
             r.fail(u.qualname, "both", u.file, u.lineno, f"{ci.name}._Update", f"_Update assigns {sorted(assigned)}: stiffness and compliance can diverge")
-    # axis normalisation in constructors
-    for ci in repo.subclasses(base):
-        init = ci.methods.get("__init__")
-        if init is None or init.cls is not ci:
-            continue
-        axes = [n for n in ast.walk(init.node) if isinstance(n, ast.Assign) and isinstance(n.targets[0], ast.Attribute) and "axis" in n.targets[0].attr]
-        for a in axes:
-            r.instance(fn=init.qualname)
-            if isinstance(a.value, ast.Call) and (dotted(a.value.func) or "") == "Normalize":
-                r.ok(f"{ci.name}.__init__: {norm_text(a)}")
-            else:
-                r.fail(init.qualname, f"axis:{norm_text(a.targets[0])}", init.file, a.lineno, f"{ci.name}.__init__", f"axis stored without Normalize: {norm_text(a)}")
-        onesided = [n for n in ast.walk(init.node) if isinstance(n, ast.Assert) and isinstance(n.test, ast.Compare) and isinstance(n.test.left, ast.BinOp) and isinstance(n.test.left.op, ast.MatMult) and isinstance(n.test.ops[0], (ast.LtE, ast.Lt))]
-        if onesided:
-            r.note(f"{ci.name}.__init__: perpendicularity is asserted one-sidedly ({norm_text(onesided[0].test)}); obtuse pairs are rejected later by Get_Pmat's |dot| test - triaged, not a finding")
 
 
 def run(ctx):
@@ -374,6 +359,7 @@ def run(ctx):
     flag_rule(ctx)
     lazy_rule(ctx)
     rotation_direction_rule(ctx)
+    ctx.attempt(axis_guard_rule, ctx)
     # the rotated laws (transversely isotropic, orthotropic, anisotropic) are P C P^T with P from Get_Pmat / Apply_Pmat: R10.2, R10.3
     from . import c10
 
@@ -404,3 +390,75 @@ def rotation_direction_rule(ctx):
                     r.ok(f"{f.qualname}: {norm_text(n)[:60]}")
                 else:
                     r.fail(f.qualname, f"direction:{f.name}", f.file, n.lineno, f.name, f"`{norm_text(n)[:80]}` rotates global -> material (P^T M P): the law is turned by the inverse rotation; aligned axes, isotropic tensors and quarter turns hide it")
+
+
+def axis_guard_rule(ctx):
+    """R11.7: 'material axes of any length': the perpendicularity guard of every law constructor that takes two material
+    axes gives one verdict for (k a1, k a2) whatever the common length k, and one verdict for a pair and its mirror
+    image (dot product of the opposite sign).  The constructors are interpreted with exact rational axes of rational
+    norm: a pair inside the guard's own tolerance (cos = 2e-14), a pair outside it (cos = 2e-3), lengths 1, 1000 and
+    1/1000."""
+    repo = ctx.repo
+    r = ctx.rule("R11.7", "axis guards of the law constructors are length-independent and sign-symmetric (verdict on (k a1, k a2) independent of k; verdict on a pair == verdict on its mirror image)", min_instances=3)
+    mod = repo.module(LAWS)
+    u = [Q(3, 5), Q(4, 5), Q(0)]
+    v = [Q(-4, 5), Q(3, 5), Q(0)]
+
+    def tilt(t):
+        d = 1 + t * t
+        return [((1 - t * t) * v[i] + 2 * t * u[i]) / d for i in range(3)]
+
+    def hook(fn, args, kwargs):
+        fi = fn if isinstance(fn, FuncInfo) else getattr(fn, "finfo", None)
+        if isinstance(fi, FuncInfo):
+            if fi.name == "__init__" or fi.name.startswith("Set_"):
+                return None  # base-class initialisation / the law itself: not part of the guard
+            if fi.name in ("AsCoords", "_") and fi.module.name.endswith("Geoms._utils"):
+                vals = list(XArray.from_nested(args[0]).data)
+                return XArray((3,), vals + [Q(0)] * (3 - len(vals)))
+        return NotImplemented
+
+    for cname, ci in sorted(mod.classes.items()):
+        init = ci.methods.get("__init__")
+        if init is None:
+            continue
+        axes = [a.arg for a in init.node.args.args if "axis" in a.arg.lower()]
+        if len(axes) != 2:
+            continue
+        r.instance(fn=init.qualname)
+
+        def verdict(a1, a2, init=init, ci=ci, axes=axes):
+            I = Interp(repo)
+            I.call_hook = hook
+            obj = XObj(ci, {})
+            kwargs = {}
+            for a in init.node.args.args[1:]:
+                if a.arg not in axes:
+                    kwargs[a.arg] = Opaque(a.arg)
+            kwargs[axes[0]] = XArray((3,), list(a1))
+            kwargs[axes[1]] = XArray((3,), list(a2))
+            try:
+                I.call_function(init, [], kwargs, self_obj=obj)
+            except XRaise as e:
+                return f"rejected ({e.kind if hasattr(e, 'kind') else 'raise'})"
+            return "accepted"
+
+        sc = lambda k, a: [k * x for x in a]
+        bad = None
+        groups = {}
+        for label, t in (("inside the tolerance (cos = 2e-14)", Q(1, 10**14)), ("outside the tolerance (cos = 2e-3)", Q(1, 1000)), ("mirror image, inside (cos = -2e-14)", Q(-1, 10**14)), ("mirror image, outside (cos = -2e-3)", Q(-1, 1000))):
+            a2 = tilt(t)
+            vs = {str(k): verdict(sc(k, u), sc(k, a2)) for k in (Q(1), Q(1000), Q(1, 1000))}
+            groups[label] = vs
+            if len(set(vs.values())) > 1 and bad is None:
+                bad = f"axes {label}: " + ", ".join(f"length {k}: {x}" for k, x in vs.items()) + " -- the verdict depends on the length of the axes"
+        if bad is None:
+            for a, b in (("inside the tolerance (cos = 2e-14)", "mirror image, inside (cos = -2e-14)"), ("outside the tolerance (cos = 2e-3)", "mirror image, outside (cos = -2e-3)")):
+                if groups[a]["1"] != groups[b]["1"]:
+                    bad = f"unit axes {a}: {groups[a]['1']}; {b}: {groups[b]['1']} -- the guard is one-sided"
+        if bad is None and verdict(u, v) != "accepted":
+            bad = "exactly perpendicular unit axes are rejected"
+        if bad:
+            r.fail(init.qualname, "axis-guard", init.file, init.lineno, f"{cname}.__init__", bad)
+        else:
+            r.ok(f"{cname}: guard verdicts " + "; ".join(f"{k}: {sorted(set(x.values()))[0]}" for k, x in groups.items()))
